@@ -71,13 +71,22 @@ def gen(rng, shape=None):
         prev = c
     sp = Split()
     owner = {}
+    # module names: flat, or the same base name in different directories (a loader or linker that identifies a
+    # module by anything coarser than the import string confuses them)
+    scheme = rng.choice(["flat", "flat", "dirs", "dirs-mixed"])
+    if scheme == "flat":
+        libname = lambda li: "m%d" % li
+    elif scheme == "dirs":
+        libname = lambda li: "pkg%d/util" % li
+    else:
+        libname = lambda li: ("util" if li == 0 else "sub%d/util" % li)
     for li, idxs in enumerate(ranges):
         for i in idxs:
-            owner[funcs[i].name] = "m%d" % li
+            owner[funcs[i].name] = libname(li)
     for li, idxs in enumerate(ranges):
         fs = [funcs[i] for i in idxs]
-        imps = sorted({owner[c] for f in fs for c in _callees(f)} - {"m%d" % li})
-        sp.libs.append(("m%d" % li, fs, imps))
+        imps = sorted({owner[c] for f in fs for c in _callees(f)} - {libname(li)})
+        sp.libs.append((libname(li), fs, imps))
     # root modules
     nroots = rng.choice([1, 1, 2])
     root_funcs_all = []
